@@ -1,3 +1,135 @@
 import HapVerif.Model.C06
+import HapVerif.Lemmas.C06
+import HapVerif.Props.C03
+import HapVerif.Props.C15
+import HapVerif.Generated.Facts
+/-!
+# C06 — same cluster state gives the same behaviour, whatever the processing order
+
+Three sources of order are modelled explicitly:
+1. the order in which the API returns objects / events arrive: the object lists of `Sync.World`
+   (`PermOf w w'` = same objects, other order);
+2. conflicts between ingresses: `sortIngs` (creation time, then namespace/name);
+3. Go's map iteration over the hosts of a frontend map inside `rebuildMatchFiles`: the parameter `π`
+   of `Sync.route` (`IterOK` = any order without repetition that covers the hosts).
+
+Theorems (all cluster states; `UniqueObjs` = namespace/name identify an object, which the API server
+guarantees):
+* `sortIngs_spec`, `sortIngs_perm` — the processing order of the ingresses is a function of the set;
+* `fullSync_perm` — the whole configuration (paths, hosts, certificates, backends and their servers,
+  default backend) is the same for every order of the object lists;
+* `route_perm_partial` — routing is the same for every order of the lists AND every iteration order
+  of Go's maps whenever the Spec determines the answer (no tie between path types of equal length);
+* `served_perm`, `annOf_perm` — certificates and the winner of an annotation conflict do not depend
+  on any order.
+
+Full-strength statement that is FALSE for the code as it is (finding
+`order-dependent-tie-between-path-types`, witness `tie_depends_on_iteration`, replayed on the Go code:
+first line of `c06corpus`):
+  `∀ w π π' r, IterOK (fullSync w) π → IterOK (fullSync w) π' → route (fullSync w) π r = route (fullSync w) π' r`.
+-/
 namespace HapVerif.C06
+open HapVerif.Sync
+open HapVerif.C04 (Str)
+
+/-- the processing order is sorted by (creation, namespace/name) and is a permutation of the input -/
+theorem sortIngs_spec (l : List Ingress) : C03.Sorted ingLt (sortIngs l) ∧ (sortIngs l).Perm l :=
+  sortIngs_sorted l
+
+/-- with unique namespace/name the processing order does not depend on the list order -/
+theorem sortIngs_perm' {l l' : List Ingress} (p : l.Perm l') (u : UniqueKeys l) : sortIngs l = sortIngs l' :=
+  sortIngs_perm p u
+
+/-- **fullSync_perm**: the generated configuration is a function of the cluster state, not of the
+order in which ingresses, services, endpoints and secrets are listed -/
+theorem fullSync_perm {w w' : World} (p : PermOf w w') (u : UniqueObjs w) : fullSync w = fullSync w' :=
+  fullSync_eq_of_perm p u
+
+/-- **route_perm_partial**: same answer for every list order and every map iteration order, whenever
+the Spec determines the answer -/
+theorem route_perm_partial {w w' : World} (p : PermOf w w') (u : UniqueObjs w) (wf : C03.WFWorld w = true)
+    {π π' : Iter} (hπ : C03.IterOK (fullSync w) π) (hπ' : C03.IterOK (fullSync w') π')
+    {r : Req} (rq : C04.WFReq r.host r.path = true) {b : Str} (det : ∀ x ∈ C03.specRoute w r, x = b) :
+    route (fullSync w) π r = route (fullSync w') π' r := by
+  rw [← fullSync_perm p u] at hπ' ⊢
+  exact C03.route_iter_indep wf hπ hπ' rq det
+
+/-- certificates do not depend on the order -/
+theorem served_perm {w w' : World} (p : PermOf w w') (u : UniqueObjs w) (sni : Str) :
+    C15.served w sni = C15.served w' sni := by
+  unfold C15.served
+  rw [fullSync_perm p u]
+
+/-- the winner of a conflict between annotations of ingresses that share a backend does not depend
+on the order (it is the first accepted declaration in (creation, namespace/name) order) -/
+theorem annOf_perm {w w' : World} (p : PermOf w w') (u : UniqueObjs w) (k : BKey) (key : Str) :
+    annOf w k key = annOf w' k key := by
+  unfold annOf
+  rw [effectiveAnn_perm p u]
+
+/-- reversing every list is a permutation (the instance the driver evaluates on every case) -/
+theorem permute_perm (w : World) : PermOf w (permute w) :=
+  ⟨(List.reverse_perm _).symm, (List.reverse_perm _).symm, (List.reverse_perm _).symm,
+   (List.reverse_perm _).symm, rfl, rfl⟩
+
+/-! ## witnesses -/
+
+def s (x : String) : Str := x.toList
+
+/-- the cluster state of the finding: on `a.local` the paths `/a` Prefix and `/a` begin tie for `/a/x`;
+both are moved to priority files because each overlaps a `/` entry of the other type; the priority
+files are shared with `b.local` (which creates a begin file) and `c.local` (a prefix file) -/
+def wTie : World :=
+  { ings := [
+      { ns := s "d", name := s "i1", created := 1, valid := true,
+        rules := [
+          ⟨s "a.local", [⟨s "/a", .pfx, s "app", s "80"⟩, ⟨s "/a", .impl, s "api", s "80"⟩,
+                         ⟨s "/", .pfx, s "web", s "80"⟩, ⟨s "/", .impl, s "web", s "80"⟩]⟩,
+          ⟨s "b.local", [⟨s "/x/y", .impl, s "web", s "80"⟩, ⟨s "/x", .pfx, s "web", s "80"⟩]⟩,
+          ⟨s "c.local", [⟨s "/x/y", .pfx, s "web", s "80"⟩, ⟨s "/x", .impl, s "web", s "80"⟩]⟩] }],
+    svcs := [⟨s "d", s "app", [⟨s "http", 80, s "8080"⟩]⟩, ⟨s "d", s "api", [⟨s "http", 80, s "8080"⟩]⟩,
+             ⟨s "d", s "web", [⟨s "http", 80, s "8080"⟩]⟩] }
+
+def πbc : Iter := ⟨[s "b.local", s "c.local", s "a.local"], [], []⟩
+def πcb : Iter := ⟨[s "c.local", s "b.local", s "a.local"], [], []⟩
+
+/-- **the finding, on the model**: both iteration orders are admissible, the Spec allows both
+backends (a documented tie), and the two orders give different answers -/
+theorem tie_depends_on_iteration :
+    C03.WFWorld wTie = true ∧
+    C03.specRoute wTie ⟨false, s "a.local", s "/a/x"⟩ = [s "d_app_8080", s "d_api_8080"] ∧
+    route (fullSync wTie) πbc ⟨false, s "a.local", s "/a/x"⟩ = s "d_api_8080" ∧
+    route (fullSync wTie) πcb ⟨false, s "a.local", s "/a/x"⟩ = s "d_app_8080" := by decide +kernel
+
+theorem tie_iters_admissible : C03.IterOK (fullSync wTie) πbc ∧ C03.IterOK (fullSync wTie) πcb :=
+  ⟨⟨C04.hostOrderOK_of_perm (by decide +kernel), C04.hostOrderOK_of_perm (by decide +kernel),
+    C04.hostOrderOK_of_perm (by decide +kernel)⟩,
+   ⟨C04.hostOrderOK_of_perm (by decide +kernel), C04.hostOrderOK_of_perm (by decide +kernel),
+    C04.hostOrderOK_of_perm (by decide +kernel)⟩⟩
+
+/-- non-vacuity of `fullSync_perm` / `route_perm_partial`: the witness of C03 with its lists reversed -/
+example : fullSync C03.w0 = fullSync (permute C03.w0) :=
+  fullSync_perm (permute_perm _)
+    ⟨by intro a ha b hb; revert a b; decide +kernel, by decide +kernel, by decide +kernel, by decide +kernel⟩
+
+example : sameCfg (fullSync C03.w0) (fullSync (permute C03.w0)) = true := by decide +kernel
+
+/-- conflict resolution by name at equal creation time: `d/i1` wins over `d/i2` whatever the list order -/
+def wAnn : World :=
+  { ings := [
+      { ns := s "d", name := s "i2", created := 1, valid := true, ann := [(s "balance-algorithm", s "first")],
+        rules := [⟨s "a.local", [⟨s "/", .pfx, s "app", s "80"⟩]⟩] },
+      { ns := s "d", name := s "i1", created := 1, valid := true, ann := [(s "balance-algorithm", s "leastconn")],
+        rules := [⟨s "b.local", [⟨s "/", .pfx, s "app", s "80"⟩]⟩] }],
+    svcs := [⟨s "d", s "app", [⟨s "http", 80, s "8080"⟩]⟩] }
+
+example : annOf wAnn ⟨s "d", s "app", s "8080"⟩ (s "balance-algorithm") = some (s "leastconn") ∧
+    annOf (permute wAnn) ⟨s "d", s "app", s "8080"⟩ (s "balance-algorithm") = some (s "leastconn") := by
+  decide +kernel
+
+/-- regenerated from the Go source -/
+theorem facts_c06 :
+    Facts.c06SortIngressTieBreak = ["i1.Namespace+\"/\"+i1.Name<i2.Namespace+\"/\"+i2.Name"] ∧
+    Facts.c06RawhostsRange = ["hm.rawhosts"] := by decide
+
 end HapVerif.C06
